@@ -111,6 +111,9 @@ Proof.
   - destruct (coll_id s coll); exact Hcov.
   - cbn [sr_store]. apply min_exp_covers.
   - destruct (coll_id s coll); exact Hcov.
+  - destruct (coll_id s coll); [|exact Hcov]. destruct (same_ddoc _ _ _ _); exact Hcov.
+  - destruct (coll_id s coll); [|exact Hcov]. destruct (existsb _ _); exact Hcov.
+  - destruct (coll_id s coll); [|exact Hcov]. destruct (filter _ _); exact Hcov.
   - apply min_exp_covers.
 Qed.
 
@@ -290,7 +293,7 @@ Proof. intros Hs Hg Hlt. apply (proj2 (fire_correct s x Hs) k r Hg). unfold due.
 Example fire_example :
   let d1 := ((1, "a"), mkRow (Some "x") false 5 100 XNull false 1) in
   let d2 := ((1, "b"), mkRow (Some "y") false 6 900 XNull false 1) in
-  let s := mkStore [d1; d2] [(1, (default_coll, 6))] 2 6 6 [] in
+  let s := mkStore [d1; d2] [(1, (default_coll, 6))] 2 6 6 [] [] in
   let s' := sr_store (sstep s (mkSctx 7 500 0) SExpire) in
   match get_doc s' (1, "a"), get_doc s' (1, "b") with
   | Some ra, Some rb => r_value ra = None /\ r_exp ra = 0 /\ rb = snd d2
